@@ -189,7 +189,7 @@ type Option struct {
 }
 
 func (o *Option) Len() uint16 {
-	return uint16(o.Length + 2)
+	return uint16(o.Length) + 2
 }
 
 func (o *Option) MarshalBinary() (data []byte, err error) {
@@ -224,7 +224,7 @@ type HopByHopHeader struct {
 }
 
 func (h *HopByHopHeader) Len() uint16 {
-	return 8 * uint16(h.HEL+1)
+	return 8 * (uint16(h.HEL) + 1)
 }
 
 func (h *HopByHopHeader) MarshalBinary() (data []byte, err error) {
@@ -279,7 +279,7 @@ type RoutingHeader struct {
 }
 
 func (h *RoutingHeader) Len() uint16 {
-	return 8 * uint16(h.HEL+1)
+	return 8 * (uint16(h.HEL) + 1)
 }
 
 func (h *RoutingHeader) MarshalBinary() (data []byte, err error) {
